@@ -89,23 +89,31 @@ def c04(root, pats, flags, exclude, via, slots):
 
 
 def termination_claimed(check_name, params):
-    """Is exceeding the directory-listing budget a violation for this combo?  (No claim with FOLLOW / *** on cyclic trees.)"""
-    from wcmatch import glob as G
-    flags = params[1] if len(params) > 1 and isinstance(params[1], int) else 0
-    pats = params[0]
+    """Is exceeding the directory-listing budget a violation for this combo?  (No claim with FOLLOW / *** / SYMLINKS on cyclic trees.)"""
+    from wcmatch import glob as G, wcmatch as W
+    if check_name == 'c14':
+        return not (params[4] & W.SYMLINKS)
+    if check_name == 'c06_wcmatch':
+        return not (params[1] & W.SYMLINKS)
+    if check_name == 'c18fs':
+        if params[0] == 'wcmatch':
+            return not (params[2] & W.SYMLINKS)
+        pats, flags = params[1], params[2]
+    elif check_name == 'c13':
+        pats, flags = params[0], params[3]
+    else:
+        pats, flags = params[0], params[1]
     if isinstance(pats, tuple) and pats and isinstance(pats[0], tuple):
         from engine import gen
         text = gen.render_path(pats)          # a generator AST
     else:
         text = ' '.join(pats) if isinstance(pats, (list, tuple)) else str(pats)
-    if check_name.startswith('c14') or check_name == 'c06_wcmatch':
-        from wcmatch import wcmatch as W
-        wflags = params[4] if check_name.startswith('c14') else params[1]
-        return not (wflags & W.SYMLINKS)
     if flags & G.FOLLOW and not flags & G.GLOBSTARLONG:
         return False
-    if flags & G.GLOBSTARLONG and ('***' in text or flags & G.MATCHBASE and flags & G.FOLLOW):
+    if flags & G.GLOBSTARLONG and ('***' in text or flags & G.FOLLOW):
         return False
+    if check_name == 'c16':
+        return not (flags & (G.FOLLOW | G.GLOBSTARLONG))
     return True
 
 
@@ -606,3 +614,33 @@ def c14(root, finc, fexc, dinc, dexc, flags, slots):
 
 def c14_classify(params, tree, res):
     return None
+
+
+# ---------------------------------------------------------------------------------------------------------
+# C18 (walk side): glob / WcMatch return the encoded paths in the same order for bytes arguments
+
+def c18fs(root, kind, pats, flags, slots):
+    from wcmatch import glob as G, wcmatch as W
+    viol = []
+    broot = os.fsencode(root)
+    if kind == 'glob':
+        plist = [pats] if isinstance(pats, str) else list(pats)
+        bp = [os.fsencode(p) for p in plist]
+        rs = _call(G.glob, pats, flags=flags, root_dir=root)
+        rb = _call(G.glob, bp[0] if isinstance(pats, str) else bp, flags=flags, root_dir=broot)
+        if isinstance(rs, list) and any(r.count('/') > 20 for r in rs):
+            return {'viol': [], 'obs': None, 'eloop': True}
+        rbd = [os.fsdecode(x) for x in rb] if isinstance(rb, list) else rb
+        if rbd != rs:
+            viol.append(f'glob bytes {rbd} != str {rs}')
+        for a, b in ((pats, broot), (bp[0] if isinstance(pats, str) else bp, root)):
+            r = _call(G.glob, a, flags=flags, root_dir=b)
+            if r != 'EXC:TypeError':
+                viol.append(f'mixed str/bytes pattern and root did not raise TypeError: {r}')
+        return {'viol': viol, 'obs': rs}
+    ws = _call(lambda: W.WcMatch(root, pats, None, flags).match())
+    wb = _call(lambda: W.WcMatch(broot, os.fsencode(pats), None, flags).match())
+    wbd = [os.fsdecode(x) for x in wb] if isinstance(wb, list) else wb
+    if wbd != ws:
+        viol.append(f'WcMatch bytes {wbd} != str {ws}')
+    return {'viol': viol, 'obs': [x.replace(root, '$ROOT') for x in ws] if isinstance(ws, list) else ws}
